@@ -87,6 +87,20 @@ def get_shape_rule(chk, P):
         shapes.add((tuple(dec), canon(pi.ret())))
     want = {((("FramedMap::get(self.vars, name)", ("Some",)),), "Option::Some{0: OutputValue::Value{0: some!(FramedMap::get(self.vars, name))}}"),
             ((("FramedMap::get(self.vars, name)", ("None",)),), "Option::cloned(HashMap::get(self.outputs, name))")}
+    if shapes != want and len(shapes) == 1:
+        # the same function written with Option combinators: `vars.get(name).map(Value).or_else(|| outputs.get(name).cloned())`
+        # — `map` keeps Some/None, `or_else` runs its closure only for None and returns a Some unchanged
+        (dec, ret), = shapes
+        m_ = re.fullmatch(r"Option::or_else\(Option::map\(FramedMap::get\(self\.vars, name\), (fn:value::OutputValue::Value|closure\(\{closure#\d+\}\))\), closure\((\{closure#\d+\})\)\)", ret)
+        if not dec and m_:
+            ok_map = m_.group(1) == "fn:value::OutputValue::Value"
+            if not ok_map:
+                c1 = P.body(g.name + "::" + m_.group(1)[len("closure("):-1])
+                ok_map = c1 is not None and set(canon(P.resolve(c1, P.sl(c1).ret(rb))) for rb in P.cfg(c1).return_blocks()) == {"OutputValue::Value{0: elem(FramedMap::get(self.vars, name))}"}
+            c2 = P.body(g.name + "::" + m_.group(2))
+            r2 = set(canon(P.resolve(c2, P.sl(c2).ret(rb))) for rb in P.cfg(c2).return_blocks()) if c2 is not None else set()
+            if ok_map and r2 == {"Option::cloned(HashMap::get(self.outputs, name))"}:
+                shapes = want
     return chk.require(shapes == want, "TAB", "TAB:EvalContext::get:variables-shadow-outputs", "vars.get(name) first (as Value); outputs.get(name) only on its None edge", "EvalContext::get has shape %s" % sorted(shapes))
 
 
